@@ -39,14 +39,17 @@ def hds_spec(draw, tier="quick", layer=0, geometry=None, version=None):
         cs, ncl, size_sectors = geometry
     else:
         cs = draw(st.one_of(st.sampled_from([2048, 2048, 1, 2, 8, 16, 128, 512]), st.integers(1, 4096)))
-        ncl = draw(st.one_of(st.integers(1, 6), st.integers(1, 40)))
+        ncl = draw(st.one_of(st.integers(1, 6), st.integers(1, 40), st.sampled_from([1025, 4097, 9000])))
         last = draw(st.one_of(st.just(cs), st.integers(1, cs)))
         size_sectors = (ncl - 1) * cs + last
     bat_entries = ncl + draw(st.sampled_from([0, 0, 1, 5]))
     first_min = (64 + 4 * bat_entries + 511) // 512
     first_cl = (first_min + cs - 1) // cs + draw(st.sampled_from([0, 0, 1]))
     first = first_cl * cs
-    alloc_l = [i for i in range(ncl) if draw(st.integers(0, 2)) != 0]
+    if ncl <= 40:
+        alloc_l = [i for i in range(ncl) if draw(st.integers(0, 2)) != 0]
+    else:
+        alloc_l = sorted(set(draw(strat.sparse_subset(ncl, 24))) | {b for b in (0, 1023, 1024, 4096, ncl - 1) if b < ncl and draw(st.booleans())})
     slots = draw(strat.placement(len(alloc_l)))
     shift = draw(st.sampled_from([0, 0, 1, 3])) if version == 1 else 0  # v1 need not be cluster aligned
     alloc = {cl: first + s * cs + shift for cl, s in zip(alloc_l, slots)}
@@ -88,7 +91,11 @@ def strategy_(draw, tier):
     hs, forced = draw(hds_spec(tier))
     spec = dict(hs, kind=kind)
     size = spec["size_sectors"] * 512
-    reqs = draw(strat.requests(size, spec["cluster_sectors"] * 512, count=6))
+    csz = spec["cluster_sectors"] * 512
+    pts = []
+    for c, _fs in spec["alloc"][:32]:
+        pts += [c * csz, (c + 1) * csz]
+    reqs = draw(strat.requests(size, csz, count=6, points=pts, whole_limit=4 << 20))
     if forced:
         reqs.insert(0, [forced[0], min(forced[1], 4 << 20)])
     spec["requests"] = reqs
